@@ -5,12 +5,19 @@
        UnexpectedEof for every schedule when the data is short;
      * write_all puts the same bytes into the sink however the sink splits writes; when the sink fails at any call the
        result is an error and what reached the sink is a prefix of the intended bytes.
-   The bit reader's two refill paths (the only place where the decoder looks at how much fill_buf exposes) are covered by
-   the lossless model's theorems when present (see evidence: theorem list); propagation of injected faults through every
+   The bit reader of the lossless decoder -- the only place where the decoder looks at how much fill_buf exposes (fast path: 8
+   bytes visible; slow path: byte by byte) -- is modelled in Model/BitReader.v with the fill_buf schedule explicit and tied to
+   lossless.rs on every run by the c01model correspondence (scripts of fill / read_bits / consume / peek through a hook, under
+   whole / constant 1,2,3,7,8,9 / random schedules):
+     * bit_reader_schedule_independent: for EVERY byte string, EVERY pair of schedules and EVERY script of reader operations the
+       delivered values, the outcome and the observable final state (bits buffered, bytes left, buffered bits) are equal;
+     * both refill paths reach the same state (bit_reader_refill_paths_agree).
+   Propagation of injected faults through every
    `?` of the decoder and encoder is decided on the implementation by the harness (c10: every schedule class, a fault at
    every I/O call index). *)
 From Coq Require Import ZArith List Arith.
 From WebP Require Import Lib.IO.
+From WebP Require Lib.ZBits Lib.Res Model.BitReader Proofs.Lossless_BitReader.
 Import ListNotations.
 
 Theorem read_exact_any_schedule : forall s1 s2 r want, want <= length (remaining r) ->
@@ -38,3 +45,25 @@ Example c10_instance :
   /\ fst (read_exact 7 (fun _ => 2) r 7 []) = None
   /\ wout (snd (write_all 4 (fun _ => 0) (Some 2) {| wout := []; wcalls := 0 |} [9; 8; 7; 6]%Z)) = [9; 8]%Z.
 Proof. repeat split; reflexivity. Qed.
+
+(* ---------------- lossless.rs BitReader under fill_buf schedules ---------------- *)
+Module BR.
+  Import Lib.ZBits Lib.Res Model.BitReader Proofs.Lossless_BitReader.
+  Local Open Scope Z_scope.
+
+  Theorem bit_reader_schedule_independent : forall (d s1 s2 : list Z) (ops : list brop),
+    Forall byte d -> run d s1 ops = run d s2 ops.
+  Proof. exact fill_schedule_independent. Qed.
+
+  Theorem bit_reader_refill_paths_agree : forall s r1 r2 r1' r2',
+    R s r1 -> R s r2 -> nbits r1 = nbits r2 -> data r1 = data r2 -> fill r1 = Ok r1' -> fill r2 = Ok r2' ->
+    nbits r1' = nbits r2' /\ data r1' = data r2' /\ (buffer r1') mod 2 ^ (nbits r1') = (buffer r2') mod 2 ^ (nbits r2')
+    /\ R s r1' /\ R s r2'.
+  Proof. exact fill_paths_agree. Qed.
+
+  (* the crate's own unit test of the reader, through three different schedules *)
+  Example bit_reader_example :
+    run [156; 65; 225] [] [OReadBits 8 3; OReadBits 8 2; OReadBits 8 6; OReadBits 16 10; OReadBits 8 3] = ([4; 3; 12; 40; 7], Ok (0, [], 0))
+    /\ run [156; 65; 225] [1; 1; 1] [OReadBits 8 3; OReadBits 8 2; OReadBits 8 6; OReadBits 16 10; OReadBits 8 3] = ([4; 3; 12; 40; 7], Ok (0, [], 0)).
+  Proof. split; vm_compute; reflexivity. Qed.
+End BR.
